@@ -32,7 +32,7 @@ Definition rcv_ok (sn : list (Z * Z)) (r : rcv) : Prop :=
 
 Definition wok (sn : list (Z * Z)) (j : instr) : Prop :=
   match j with
-  | IRcvGet r | IRcvChk r _ _ | IRcvEnq r _ => rcv_ok sn r
+  | IRcvGet r | IRcvChk r _ _ | IRcvEnq r _ _ => rcv_ok sn r
   | ISendErr k id _ => In (k, id) sn
   | INcChk _ f ft _ g =>
       frameTypeFor (f_mt f) = Some ft /\
@@ -144,7 +144,7 @@ Proof.
     unfold orig_tail. destruct s.
     + apply Forall_app. split; [destruct (reason =? reason_source_slow); repeat constructor; exact Hseen|repeat constructor].
     + repeat constructor. exact Hseen.
-  - destruct (items_delete st t) as [st' g] eqn:E. destruct g as [[it [|]]|]; inversion H; subst; try constructor.
+  - destruct (items_delete_call st t lk) as [st' g] eqn:E. destruct g as [[it [|]]|]; inversion H; subst; try constructor.
     apply Forall_app. split; [destruct (it_orig it); repeat constructor|repeat constructor].
   - destruct (zlookup tm (timers st)) as [x|]; [|inversion H; constructor].
     destruct (tm_released x); inversion H; repeat constructor.
@@ -202,7 +202,8 @@ Proof.
         -- exists it0. split; [eapply (lookup_in key_eqb key_eqb_ok); exact El|split; reflexivity].
         -- exists it. repeat split. exact Hin.
     + destruct E as (_&Hi&_). rewrite Hi in Hin. exists it. repeat split. exact Hin.
-  - left. destruct (items_delete st t0) as [st' g] eqn:E. apply items_delete_spec in E. destruct E as (_&_&_&_&_&_&_&E).
+  - left. destruct (items_delete_call_cases st t0 lk) as [Ec|[Ec _]]; rewrite Ec in H; [|inversion H; subst; exists it; repeat split; exact Hin].
+    destruct (items_delete st t0) as [st' g] eqn:E. apply items_delete_spec in E. destruct E as (_&_&_&_&_&_&_&E).
     assert (Hst : items st1 = items st').
     { destruct g as [[it0 [|]]|]; inversion H; reflexivity. }
     rewrite Hst in Hin. destruct (klookup t0 (items st)) as [it0|].
@@ -218,7 +219,7 @@ Lemma exec_sent_w : forall cf st i room st1 pushed, exec cf st i room = (st1, pu
   (sent st1 = sent st \/
    (exists k id code, i = ISendErr k id code /\
       sent st1 = (k, {| f_mt := c_messageTypeError; f_id := id; f_flags := 0; f_code := code; f_wf := true |}) :: sent st) \/
-   (exists r rk, i = IRcvEnq r rk /\ sent st1 = (r_d r, r_f r) :: sent st)).
+   (exists r rk lk, i = IRcvEnq r rk lk /\ sent st1 = (r_d r, r_f r) :: sent st)).
 Proof.
   intros cf st i room st1 pushed H. destruct i; cbn [exec] in H.
   - destruct (e_start e =? 0); [inversion H; split; [reflexivity|left; reflexivity]|].
@@ -247,13 +248,13 @@ Proof.
   - destruct g as [[it0 stopped]|]; [|inversion H; split; [reflexivity|left; reflexivity]].
     destruct (it_tomb it0 || (fin_of (r_f r) && negb stopped)); inversion H; split; try reflexivity; left; reflexivity.
   - destruct room; inversion H; split; try reflexivity.
-    + right. right. exists r, rk. split; reflexivity.
+    + right. right. exists r, rk, lk. split; reflexivity.
     + left. reflexivity.
   - destruct (items_get st t true) as [st' g] eqn:E. apply items_get_spec in E. destruct E as [(_&_&_&_&_&A&B&_) _].
     destruct g as [[it0 [|]]|]; inversion H; subst; (split; [exact B|left; exact A]).
   - destruct (items_entomb cf st t) as [st' g] eqn:E. apply items_entomb_spec in E. destruct E as (_&_&_&A&B&_).
     destruct g as [[it0 [|]]|]; inversion H; subst; (split; [exact B|left; exact A]).
-  - destruct (items_delete st t) as [st' g] eqn:E. apply items_delete_spec in E. destruct E as (_&_&_&_&A&B&_).
+  - destruct (items_delete_call st t lk) as [st' g] eqn:E. apply items_delete_call_spec in E. destruct E as (_&_&_&_&A&B&_).
     destruct g as [[it0 [|]]|]; inversion H; subst; (split; [exact B|left; exact A]).
   - destruct (zlookup tm (timers st)) as [x|]; [|inversion H; split; [reflexivity|left; reflexivity]].
     destruct (tm_released x); inversion H; split; try reflexivity; left; reflexivity.
@@ -296,7 +297,7 @@ Proof.
       * subst i. destruct (inv_code _ HI _ _ Hin0) as [Hf _]. inversion Hf as [|? ? Hiok _].
         destruct (iok_adm _ _ _ _ (IAddDest k f e c d) k f eq_refl Hiok) as [_ Hkf]. destruct Hkf as (Hs&_).
         rewrite A, B. exact Hs.
-    + intros k f Hin Hk. destruct Hsent as [Hs|[(k0&id&code&Hi&Hs)|(r&rk&Hi&Hs)]]; rewrite Hs in Hin.
+    + intros k f Hin Hk. destruct Hsent as [Hs|[(k0&id&code&Hi&Hs)|(r&rk&lk&Hi&Hs)]]; rewrite Hs in Hin.
       * eapply (w_sent _ HW); eassumption.
       * destruct Hin as [Hin|Hin]; [|eapply (w_sent _ HW); eassumption]. inversion Hin. subst k f i. cbn.
         apply (w_code _ HW th _ _ Hin0 (or_introl eq_refl)).
@@ -366,7 +367,7 @@ Definition is_wire (f : frame) : bool := match kind_of f with Some _ => true | N
 Definition blocked (k id : Z) (j : instr) : bool :=
   match j with
   | ISendErr k' id' _ => (k' =? k) && (id' =? id)
-  | IRcvEnq r _ => (r_d r =? k) && (f_id (r_f r) =? id) && is_wire (r_f r)
+  | IRcvEnq r _ _ => (r_d r =? k) && (f_id (r_f r) =? id) && is_wire (r_f r)
   | IRcvChk r _ (Some (it, s)) =>
       (r_d r =? k) && (f_id (r_f r) =? id) && is_wire (r_f r) && negb (it_tomb it) && (negb (fin_of (r_f r)) || s)
   | _ => match adm_kf j with Some (k', f) => (k' =? k) && (f_id f =? id) | None => false end
@@ -447,7 +448,8 @@ Proof.
         -- exists it0. split; [eapply (lookup_in key_eqb key_eqb_ok); exact El|intros _; reflexivity].
         -- exists it. split; [exact Hin|tauto].
     + destruct E as (_&Hi&_). rewrite Hi in Hin. exists it. split; [exact Hin|tauto].
-  - left. destruct (items_delete st t0) as [st' g] eqn:E. apply items_delete_spec in E. destruct E as (_&_&_&_&_&_&_&E).
+  - left. destruct (items_delete_call_cases st t0 lk) as [Ec|[Ec _]]; rewrite Ec in H; [|inversion H; subst; exists it; split; [exact Hin|tauto]].
+    destruct (items_delete st t0) as [st' g] eqn:E. apply items_delete_spec in E. destruct E as (_&_&_&_&_&_&_&E).
     assert (Hst : items st1 = items st').
     { destruct g as [[it0 [|]]|]; inversion H; reflexivity. }
     rewrite Hst in Hin. destruct (klookup t0 (items st)) as [it0|].
@@ -538,7 +540,7 @@ Proof.
     + destruct ((key_conn t =? k) && (key_id t =? id)) eqn:Ek; [|reflexivity]. exfalso.
       apply andb_true_iff in Ek. destruct Ek as [E1 E2]. apply Z.eqb_eq in E1. apply Z.eqb_eq in E2.
       destruct t as [[tc td] ti]. cbn in *. subst. rewrite (Hcl _ El) in Hnt. discriminate.
-  - destruct (items_delete st t) as [st' g] eqn:E. destruct g as [[it [|]]|]; inversion H; subst; try contradiction.
+  - destruct (items_delete_call st t lk) as [st' g] eqn:E. destruct g as [[it [|]]|]; inversion H; subst; try contradiction.
     in_cases Hj; reflexivity.
   - destruct (zlookup tm (timers st)) as [x|]; [|inversion H; subst; contradiction].
     destruct (tm_released x); inversion H; subst; try contradiction. destruct Hj as [<-|[]]. reflexivity.
@@ -588,7 +590,7 @@ Proof.
            ++ exact (exec_pushed_unblocked cf st th i rest room st1 pushed k id j HI HW El Hcl Hbi E Hj).
            ++ eapply (Hnb th (i :: rest)); [exact Hin0|right; exact Hj].
         -- rewrite Hth in Hin. eapply Hnb; eassumption.
-    + cbn [set_thread set_threads sent]. destruct Hsent as [Hs|[(k1&id1&code1&Hi&Hs)|(r&rk&Hi&Hs)]]; rewrite Hs; [reflexivity| |].
+    + cbn [set_thread set_threads sent]. destruct Hsent as [Hs|[(k1&id1&code1&Hi&Hs)|(r&rk&lk&Hi&Hs)]]; rewrite Hs; [reflexivity| |].
       * subst i. apply wire_of_cons_other. cbn in Hbi. cbn. rewrite Hbi. reflexivity.
       * subst i. apply wire_of_cons_other. cbn in Hbi. exact Hbi.
   - (* LFire *)
